@@ -10,7 +10,8 @@ TECHNIQUE = "bounded-exhaustive enumeration of column option orders x types x de
 LEVEL_TEXT = ("Three complete families are rendered from a reference model and parsed by the real library: (A) every ordered selection of "
               "<=3 (thorough: all) column options x 8 type forms x 13 default forms with the column between two neighbours; (B) every "
               "table of 1..3 (thorough 4) columns over 12 column shapes covering every last-token class, in 3 layouts; (C) every script of "
-              "1..3 tables over 6 tables, with and without schema. The five attributes the property names are compared per column.")
+              "1..3 tables over 6 tables, with and without schema. The five attributes the property names are compared per column."
+              " Family C is also run behind a comment line that holds a lone apostrophe; every default form meets every type form.")
 LEVEL_NOTE = ("Small-scope bounds: <=5 options, <=4 columns, <=3 tables; type and default alphabets are fixed lists. The reference model is "
               "written from the property statement, not from the code.")
 RULE = ("case = a table/script rendered from the reference model; expected columns known by construction; non-trivial = at least one "
